@@ -18,7 +18,7 @@ func init() {
 		ID: "C07", Level: "model_checking",
 		Rule:   "ELX on the real Client against a scripted server that keeps the authoritative ledger: server INITIAL_WINDOW_SIZE in {0,1,5}; a prelude upload of 65530 bytes leaves the connection window at 5; 1-2 (quick) / 3 (thorough) concurrent uploads with sizes from {0,1,3,6,16384,16385,40000}, buffered or streamed (declared / unknown length); every sequence up to the depth bound of {WINDOW_UPDATE(stream i, 1|2|big), WINDOW_UPDATE(0, 1|3|big), SETTINGS_INITIAL_WINDOW_SIZE in {0,1,4,70000}, SETTINGS_MAX_FRAME_SIZE in {16384, 20000}, SETTINGS without either}; then a closing phase grants everything. Oracle: ledger never negative at a DATA frame; no DATA frame above the MAX_FRAME_SIZE in force; at no quiescent state does an upload with unsent bytes have both windows positive; after the closing phase every body arrived complete with END_STREAM exactly once. Non-trivial: a window blocked a send somewhere in the sequence; distinct by (config, sequence).",
 		Assume: []string{"canonical internal schedule between events (grant-vs-spend races at lock granularity are explored with preemptions in C19)"},
-		Run:    runC07, Replay: replayC07, QuickS: 60, ThoroughS: 900,
+		Run:    runC07, Replay: replayC07, QuickS: 150, ThoroughS: 900,
 	})
 }
 
@@ -50,6 +50,33 @@ type c07Run struct {
 	sizes    []int // per upload (configured ones, then late ones)
 	kinds    []int
 	late     int
+	// uploads issued whose HEADERS the server has not received yet (size, kind), oldest first
+	waiting [][2]int
+	// frameAcks: MAX_FRAME_SIZE in force once each outstanding SETTINGS frame is acknowledged (per frame, in order)
+	frameAcks  []int
+	ackedFrame int
+	stalled    bool // the server has stopped reading
+	stalls     int
+}
+
+// sentSettings records a SETTINGS frame the server has just sent (win < 0 / frame < 0: parameter absent). Until
+// its acknowledgement is seen the client may be working with the old or the new values.
+func (x *c07Run) sentSettings(win int64, frame int) {
+	x.l.sendSettings(win)
+	if x.ackedFrame == 0 {
+		x.ackedFrame = x.maxFrame
+	}
+	x.frameAcks = append(x.frameAcks, frame)
+	x.reframe()
+}
+
+func (x *c07Run) reframe() {
+	x.maxFrame = x.ackedFrame
+	for _, v := range x.frameAcks {
+		if v > x.maxFrame {
+			x.maxFrame = v
+		}
+	}
 }
 
 func (x *c07Run) viol(rule, detail string) *fw.Violation {
@@ -59,6 +86,27 @@ func (x *c07Run) viol(rule, detail string) *fw.Violation {
 func (x *c07Run) account() (string, string) {
 	for ; x.seen < len(x.srv.Out); x.seen++ {
 		f := x.srv.Out[x.seen]
+		if f.Type == peer.TSettings && f.Has(peer.FAck) {
+			x.l.ack()
+			if len(x.frameAcks) > 0 {
+				if v := x.frameAcks[0]; v >= 0 {
+					x.ackedFrame = v
+				}
+				x.frameAcks = x.frameAcks[1:]
+				x.reframe()
+			}
+			continue
+		}
+		if f.Type == peer.THeaders {
+			// a stream exists for the server from the moment its HEADERS arrive: its id is whatever the client chose
+			if _, known := x.l.stream[f.Stream]; !known && len(x.waiting) > 0 {
+				x.l.open(f.Stream)
+				x.ids = append(x.ids, f.Stream)
+				x.sizes, x.kinds = append(x.sizes, x.waiting[0][0]), append(x.kinds, x.waiting[0][1])
+				x.waiting = x.waiting[1:]
+			}
+			continue
+		}
 		if f.Type != peer.TData {
 			continue
 		}
@@ -170,15 +218,26 @@ func newC07(cfg c07Cfg) (*c07Run, *fw.Violation) {
 
 // start issues one more upload and learns its stream id from the HEADERS the server received.
 func (x *c07Run) start(spec harness.ReqSpec, size, kind int) {
-	n := len(x.srv.Order)
+	x.waiting = append(x.waiting, [2]int{size, kind})
 	x.calls = append(x.calls, x.h.Go(spec))
-	id := uint32(2*n + 1)
-	if len(x.srv.Order) > n {
-		id = x.srv.Order[n]
+	x.account0()
+}
+
+// account0 binds the HEADERS frames that have arrived to the uploads waiting for them (violations are
+// reported by the caller's own account() right after).
+func (x *c07Run) account0() {
+	for i := x.seen; i < len(x.srv.Out) && len(x.waiting) > 0; i++ {
+		f := x.srv.Out[i]
+		if f.Type != peer.THeaders {
+			continue
+		}
+		if _, known := x.l.stream[f.Stream]; !known {
+			x.l.open(f.Stream)
+			x.ids = append(x.ids, f.Stream)
+			x.sizes, x.kinds = append(x.sizes, x.waiting[0][0]), append(x.kinds, x.waiting[0][1])
+			x.waiting = x.waiting[1:]
+		}
 	}
-	x.l.open(id)
-	x.ids = append(x.ids, id)
-	x.sizes, x.kinds = append(x.sizes, size), append(x.kinds, kind)
 }
 
 func (x *c07Run) windows() []int64 {
@@ -213,6 +272,13 @@ func (x *c07Run) menu() []string {
 		}
 	}
 	m = append(m, "othersettings")
+	// the server stops reading for a while (once): requests issued meanwhile have their HEADERS held up in
+	// the transport while SETTINGS and WINDOW_UPDATE frames keep arriving
+	if x.stalled {
+		m = append(m, "resume")
+	} else if x.stalls == 0 {
+		m = append(m, "stall")
+	}
 	// an upload that starts now, after whatever the server has said so far (at most two)
 	if x.late < 2 {
 		m = append(m, "late 6 0", "late 6 2")
@@ -234,24 +300,27 @@ func (x *c07Run) apply(ev string) *fw.Violation {
 		h.Send(0, peer.WindowUpdate(x.ids[a], uint32(b)))
 	case strings.HasPrefix(ev, "settings"):
 		fmt.Sscanf(ev, "settings %d", &a)
-		x.l.settings(uint32(a))
+		x.sentSettings(int64(a), -1)
 		h.Send(0, peer.Settings(peer.Setting{ID: peer.SInitialWindowSize, Val: uint32(a)}))
 	case strings.HasPrefix(ev, "maxframe"):
 		fmt.Sscanf(ev, "maxframe %d", &a)
 		// a larger limit may be used from now on; a smaller one binds once the ACK is in
-		if a > x.maxFrame {
-			x.maxFrame = a
-		}
+		x.sentSettings(-1, a)
 		h.Send(0, peer.Settings(peer.Setting{ID: peer.SMaxFrameSize, Val: uint32(a)}))
-		if r, d := x.account(); r != "" {
-			return x.viol(r, d)
-		}
-		x.maxFrame = a
 	case strings.HasPrefix(ev, "late"):
 		fmt.Sscanf(ev, "late %d %d", &a, &b)
 		x.late++
-		x.start(c07Spec(len(x.ids), a, b), a, b)
+		x.start(c07Spec(len(x.ids)+len(x.waiting), a, b), a, b)
+	case ev == "stall":
+		// the server stops reading: the client's writes block from here on
+		h.ServerStall(0)
+		x.stalled = true
+		x.stalls++
+	case ev == "resume":
+		h.ServerResume(0)
+		x.stalled = false
 	case ev == "othersettings":
+		x.sentSettings(-1, -1)
 		h.Send(0, peer.Settings(peer.Setting{ID: peer.SHeaderTableSize, Val: 4096}, peer.Setting{ID: peer.SMaxConcurrentStreams, Val: 50}))
 	}
 	x.trace = append(x.trace, ev)
@@ -265,13 +334,20 @@ func (x *c07Run) apply(ev string) *fw.Violation {
 	if len(x.srv.ProtoErrs) > 0 {
 		return x.viol("request-framing-invalid", strings.Join(x.srv.ProtoErrs, "; "))
 	}
-	if s := x.stuck(); s != "" {
-		return x.viol("stuck-with-open-windows", s)
+	if !x.stalled { // a client whose transport is blocked cannot send: judged after the server reads again
+		if s := x.stuck(); s != "" {
+			return x.viol("stuck-with-open-windows", s)
+		}
 	}
 	return nil
 }
 
 func (x *c07Run) finishAll() *fw.Violation {
+	if x.stalled {
+		if v := x.apply("resume"); v != nil {
+			return v
+		}
+	}
 	if x.l.init != 65535 {
 		if v := x.apply("settings 65535"); v != nil {
 			return v
